@@ -57,6 +57,9 @@
 //     newDeviceDataError(err, typ), like fmt.Errorf, makes a non-nil error;
 //   - a slice expression xs[lo:hi] on a list is take/drop; bounds outside
 //     0 ≤ lo ≤ hi ≤ len(xs) make the result `none` (capacity is not modelled);
+//   - a struct literal with field names T{f: v, …} is a Lean structure instance
+//     (fields of untranslatable type are not part of the structure, fields not
+//     mentioned get their zero value); &T{…} is `some` of it;
 //   - `defer func() { err = errors.Annotate(err, …) }()` is dropped: it changes
 //     the text of a non-nil error only (nil stays nil);
 //   - a pointer to an abstract (library) struct has no value in Lean: `p == nil`
@@ -589,6 +592,10 @@ func (c *fctx) expr(e ast.Expr) ex {
 	case *ast.SelectorExpr:
 		return c.selector(x)
 	case *ast.UnaryExpr:
+		if lit, ok := x.X.(*ast.CompositeLit); ok && x.Op == token.AND {
+			// &T{…}: a non-nil pointer
+			return c.bindN([]ex{c.expr(lit)}, func(s []string) string { return "(some " + s[0] + ")" })
+		}
 		a := c.expr(x.X)
 		switch x.Op {
 		case token.NOT:
@@ -612,6 +619,36 @@ func (c *fctx) expr(e ast.Expr) ex {
 				xs = append(xs, c.exprAs(el, sl.Elem()))
 			}
 			return c.bindN(xs, func(s []string) string { return "[" + strings.Join(s, ", ") + "]" })
+		}
+		if st, ok := c.typeOf(x).Underlying().(*types.Struct); ok && c.t.leanType(c.typeOf(x)) != "" {
+			// T{f: v, …} with field names; fields not mentioned get their zero value
+			var names []string
+			var xs []ex
+			given := map[string]bool{}
+			for _, el := range x.Elts {
+				kv, ok := el.(*ast.KeyValueExpr)
+				if !ok {
+					fail("struct literal without field names %s", c.show(x))
+				}
+				fn := kv.Key.(*ast.Ident).Name
+				given[fn] = true
+				for i := 0; i < st.NumFields(); i++ {
+					if f := st.Field(i); f.Name() == fn && c.t.leanType(f.Type()) != "" {
+						names, xs = append(names, leanIdent(fn)), append(xs, c.exprAs(kv.Value, f.Type()))
+					}
+				}
+			}
+			for i := 0; i < st.NumFields(); i++ {
+				if f := st.Field(i); !given[f.Name()] && c.t.leanType(f.Type()) != "" {
+					names, xs = append(names, leanIdent(f.Name())), append(xs, ex{code: c.zero(f.Type())})
+				}
+			}
+			return c.bindN(xs, func(s []string) string {
+				for i := range s {
+					s[i] = names[i] + " := " + s[i]
+				}
+				return "({ " + strings.Join(s, ", ") + " } : " + c.t.leanType(c.typeOf(x)) + ")"
+			})
 		}
 	}
 	if sx, ok := e.(*ast.SliceExpr); ok && !sx.Slice3 {
